@@ -18,6 +18,8 @@ type slicer struct {
 	fields map[*types.Var]bool
 	seen   map[sliceKey]bool
 	steps  int
+	loads  []*ssa.UnOp             // every load visited
+	within map[*ssa.Function]bool // when set: a parameter reached without call context is followed to the call sites inside these functions
 }
 
 type sliceKey struct {
@@ -55,6 +57,15 @@ func (s *slicer) walk(v ssa.Value, idx int, ctx *sliceCtx, depth int) {
 	case *ssa.Const, *ssa.Function, *ssa.Global, *ssa.Builtin:
 	case *ssa.Parameter:
 		if ctx == nil {
+			if s.within != nil {
+				if pi := paramIndex(x.Parent(), x); pi >= 0 {
+					for _, site := range s.p.callIndex().sites[x.Parent()] {
+						if s.within[site.Parent()] && pi < len(site.Common().Args) {
+							s.walk(site.Common().Args[pi], 0, nil, depth+1)
+						}
+					}
+				}
+			}
 			return
 		}
 		if pi := paramIndex(x.Parent(), x); pi >= 0 && pi < len(ctx.call.Common().Args) && ctx.call.Common().StaticCallee() == x.Parent() {
@@ -71,6 +82,7 @@ func (s *slicer) walk(v ssa.Value, idx int, ctx *sliceCtx, depth int) {
 		s.walk(x.X, 0, ctx, depth+1)
 	case *ssa.UnOp:
 		if x.Op == token.MUL {
+			s.loads = append(s.loads, x)
 			s.load(x.X, ctx, depth+1)
 		} else {
 			s.walk(x.X, 0, ctx, depth+1)
@@ -264,4 +276,98 @@ func retVal(r *ssa.Return, i int) ssa.Value {
 		return last
 	}
 	return v
+}
+
+// sliceOf runs the backward slice and returns fields and parameters (of fn) reached.
+func sliceOf(p *Program, v ssa.Value) (fields map[*types.Var]bool, params map[*ssa.Parameter]bool) {
+	s := &slicer{p: p, fields: map[*types.Var]bool{}, seen: map[sliceKey]bool{}}
+	s.walk(v, 0, nil, 0)
+	params = map[*ssa.Parameter]bool{}
+	for k := range s.seen {
+		if par, ok := k.v.(*ssa.Parameter); ok && k.ctx == nil {
+			params[par] = true
+		}
+	}
+	return s.fields, params
+}
+
+// ruleACKBOUND (C15): ACKing more events than are pending is refused.  "Pending" is the distance from the
+// read position to the tail, so the branch that raises ACKTooMany has to be decided by the request, the
+// tail and the read position.
+func ruleACKBOUND(p *Program, rep *Report) {
+	rep.Rule("ACK-BOUND", 1, "the branch that reports ACKTooMany is decided by a condition that depends on the number of events to ACK, on the queue header's tail and on its read position (the first un-ACKed event): a bound measured from any other position admits an ACK beyond the tail once events of the head page have been ACKed, and the read position stored by that ACK lies past the tail")
+	kind := p.PQ.Const("ACKTooMany")
+	if kind == nil {
+		panic(vocabMiss{"pq.ACKTooMany"})
+	}
+	read := p.FieldVar("pq", "queuePage", "read")
+	tail := p.FieldVar("pq", "queuePage", "tail")
+	n := 0
+	for _, fn := range p.SrcFuncs() {
+		if fnPkgPath(fn) != modPath+"/pq" {
+			continue
+		}
+		for _, b := range fn.Blocks {
+			for _, ins := range b.Instrs {
+				c, ok := ins.(*ssa.Call)
+				if !ok {
+					continue
+				}
+				isKind := false
+				for _, a := range c.Common().Args {
+					if k, ok := a.(*ssa.Const); ok && k.Value != nil && types.Identical(k.Type(), kind.Value.Type()) && k.Value.ExactString() == kind.Value.Value.ExactString() {
+						isKind = true
+					}
+				}
+				if !isKind {
+					continue
+				}
+				n++
+				rep.Analysed(funcName(fn))
+				key := funcName(fn) + "|ACKTooMany-guard"
+				// the branch deciding this block: walk up single-predecessor chains to the nearest If
+				blk := b
+				var cond ssa.Value
+				for blk != nil && cond == nil {
+					if len(blk.Preds) != 1 {
+						break
+					}
+					pr := blk.Preds[0]
+					if iff, ok := pr.Instrs[len(pr.Instrs)-1].(*ssa.If); ok {
+						cond = iff.Cond
+					}
+					blk = pr
+				}
+				if cond == nil {
+					rep.Unknown("ACK-BOUND", key, p.InstrPos(ins), "no single deciding branch found for the ACKTooMany report")
+					continue
+				}
+				fields, params := sliceOf(p, cond)
+				hasN := false
+				for par := range params {
+					if par.Parent() == fn {
+						hasN = true
+					}
+				}
+				missing := ""
+				if !fields[read] {
+					missing += " the read position (queuePage.read)"
+				}
+				if !fields[tail] {
+					missing += " the tail (queuePage.tail)"
+				}
+				if !hasN {
+					missing += " the number of events to ACK"
+				}
+				if missing == "" {
+					rep.OK("ACK-BOUND", key, p.InstrPos(ins), "decided by n, read position and tail")
+				} else {
+					rep.Bad("ACK-BOUND", key, p.InstrPos(ins), "the condition that reports ACKTooMany cannot depend on:"+missing+" — an ACK of more events than are pending can pass (e.g. after a partial ACK of the head page) and stores a read position beyond the tail")
+				}
+			}
+		}
+	}
+	if n == 0 {
+		rep.Unknown("ACK-BOUND", "anchor", "", "no site reporting ACKTooMany found (anchor lost)")
+	}
 }
